@@ -30,7 +30,7 @@ TABLE_CONSTRUCTS = ["c19_cell_slots", "c19_cell_getstate", "c19_cell_add_remove"
                     "c19_grid_setstate_classes", "c19_grid_setstate_descr", "c19_dspace_setstate", "c19_agentset_state"]
 ENUM_ALWAYS = False
 
-E_FULL, E_NODIR, E_EXISTS, E_MISSING, E_KEY, E_FIXED = 1, 2, 3, 4, 5, 6
+E_FULL, E_NODIR, E_EXISTS, E_MISSING, E_KEY, E_FIXED, E_EMPTY = 1, 2, 3, 4, 5, 6, 7
 USER_NAMES = (10, 11)
 LAYER = {0: "empty", 1: "elev", 2: "heat"}
 LAYER_ID = {v: k for k, v in LAYER.items()}
@@ -51,7 +51,9 @@ VOR_POINTS = [
 RULE = ("histories = one cell space (Moore/von Neumann grid in 1-3 dimensions, hex grid, network of <= 6 nodes, 4 Voronoi point "
         "sets; dims <= 3x3; torus flag; capacity None/1/2; 0-2 extra int property layers) with its Model, or one AgentSet; 0-8 "
         "operations before the copy (placements and moves incl. into full cells, leave, move_relative along geometry and "
-        "hand-made keys, cell-attribute and layer writes, fill, add/remove layer, FixedAgent placement, agent.remove() incl. "
+        "hand-made keys, cell-attribute and layer writes, fill, add/remove layer, random selections (select_random_cell / _agent "
+        "on all_cells, empties and neighbourhood collections, select_random_empty_cell under both strategies; AgentSet "
+        "shuffle_do / shuffle) with the generator states of every side compared before and after, FixedAgent placement, agent.remove() incl. "
         "FixedAgent.remove(), user attributes on cells, Cell.connect with hand-made keys, remove_property_layer('empty')), a "
         "copy (deepcopy or pickle, of the space or of the model holding it), then 4-14 further operations on either side incl. "
         "copies of copies; agent-set histories (add/discard/remove, copies of copies, forgetting all references + gc); every "
@@ -285,7 +287,9 @@ def _gen_ops(rng, case, n_pre, n_post, force_copy=True):
             return ["delempty", s]
         if r < 0.15:
             return ["connect", s, rng.randrange(ncell), HANDMADE + rng.randrange(3), rng.randrange(ncell)]
-        if r < 0.45 or not sd["labels"]:
+        if r < 0.22:
+            return ["draw", s, rng.randrange(7), rng.randrange(ncell)]
+        if r < 0.50 or not sd["labels"]:
             if sd["labels"] and rng.random() < 0.6:
                 lab = rng.choice(sd["labels"])
             else:
@@ -293,9 +297,9 @@ def _gen_ops(rng, case, n_pre, n_post, force_copy=True):
                 if lab not in sd["labels"]:
                     sd["labels"].append(lab)
             return ["move", s, lab, rng.randrange(ncell)]
-        if r < 0.53:
+        if r < 0.57:
             return ["leave", s, rng.choice(sd["labels"])]
-        if r < 0.64:
+        if r < 0.66:
             keys = sorted({k for conns in geom for k, _ in conns})
             if rng.random() < 0.2:
                 k = HANDMADE + rng.randrange(3)
@@ -362,6 +366,10 @@ def _gen_aset_case(rng):
             nsides = min(MAX_SIDES, nsides + 1)
         elif r < 0.25:
             ops.append(["sforget", rng.randrange(nsides)])
+        elif r < 0.33:
+            ops.append(["sdraw", rng.randrange(nsides), rng.randrange(2)])
+        elif r < 0.40:
+            ops.append(["sshuffle", rng.randrange(nsides)])
         elif r < 0.58:
             ops.append(["sadd", rng.randrange(nsides), rng.randint(1, 8)])
         elif r < 0.8:
@@ -432,7 +440,9 @@ def _enumerate_main(tier, broken=False):
                             keys = sorted({k for conns in _geom(case) for k, _ in conns}) or [0]
                             ops = [["move", 0, 1, 0], ["move", 0, 2, last], ["placefixed", 0, 5, 0], ["move", 0, 6, 0],
                                    ["leave", 0, 6], ["move", 0, 7, last], ["kill", 0, 7], ["setuser", 0, last, 10, 4],
-                                   ["copy", mech, 0, root], ["move", 1, 5, last], ["move", 1, 6, last], ["kill", 1, 1],
+                                   ["copy", mech, 0, root], ["draw", 1, 0, 0], ["draw", 0, 3, 0], ["draw", 1, 3, 0], ["draw", 1, 5, 0],
+                                   ["draw", 0, 1, 0], ["draw", 1, 4, 0], ["draw", 1, 6, last], ["draw", 0, 2, 0],
+                                   ["move", 1, 5, last], ["move", 1, 6, last], ["kill", 1, 1],
                                    ["setattr", 1, last, 0, 1], ["move", 1, 3, last], ["move", 1, 1, last],
                                    ["relmove", 1, 2, rng.choice(keys)], ["leave", 1, 2], ["move", 0, 2, 0],
                                    ["copy", 1 - mech, 1, 0], ["move", 2, 4, last], ["leave", 2, 4]]
@@ -448,7 +458,8 @@ def _enumerate_main(tier, broken=False):
                     case = {"kind": "space", "stype": "net", "dims": [], "torus": False, "cap": cap, "n": n,
                             "edges": edges, "vor": 0, "capfun": 0, "layers": []}
                     case["ops"] = [["move", 0, 1, 0], ["move", 0, 2, n - 1], ["placefixed", 0, 5, 0], ["move", 0, 6, 0], ["leave", 0, 6],
-                                   ["setuser", 0, n - 1, 11, 3], ["copy", mech, 0, root], ["move", 1, 6, 0], ["move", 1, 5, n - 1],
+                                   ["setuser", 0, n - 1, 11, 3], ["copy", mech, 0, root], ["draw", 1, 0, 0], ["draw", 0, 0, 0],
+                                   ["draw", 1, 3, 0], ["draw", 1, 5, 0], ["draw", 0, 1, 0], ["move", 1, 6, 0], ["move", 1, 5, n - 1],
                                    ["setuser", 1, n - 1, 11, 8], ["move", 1, 3, n - 1],
                                    ["relmove", 1, 1, n - 1], ["leave", 0, 1], ["copy", 1 - mech, 1, 0], ["move", 2, 1, 0]]
                     yield case
@@ -460,6 +471,7 @@ def _enumerate_main(tier, broken=False):
                             "edges": [], "vor": v, "capfun": capfun, "layers": []}
                     n = len(VOR_POINTS[v])
                     case["ops"] = [["move", 0, 1, 0], ["move", 0, 2, n - 1], ["move", 0, 3, n - 1], ["copy", mech, 0, root],
+                                   ["draw", 1, 0, 0], ["draw", 0, 2, 0], ["draw", 1, 4, 0], ["draw", 1, 5, 0],
                                    ["move", 1, 4, n - 1], ["relmove", 1, 1, 0 * 100 + 1], ["leave", 0, 1],
                                    ["copy", 1 - mech, 1, 0], ["move", 2, 1, 0]]
                     yield case
@@ -467,7 +479,8 @@ def _enumerate_main(tier, broken=False):
         for mech in (0, 1):
             yield {"kind": "aset", "stype": "aset", "init": init,
                    "ops": [["scopy", mech, 0], ["sadd", 1, 9], ["sdiscard", 0, 1], ["sremove", 1, 1], ["sremove", 1, 1],
-                           ["scopy", 1 - mech, 1], ["sadd", 2, 1], ["sadd", 0, 9], ["sforget", 1], ["sadd", 1, 4], ["sforget", 0]]}
+                           ["scopy", 1 - mech, 1], ["sdraw", 2, 0], ["sdraw", 0, 1], ["sshuffle", 2], ["sshuffle", 0], ["sadd", 2, 1],
+                           ["sadd", 0, 9], ["sforget", 1], ["sadd", 1, 4], ["sforget", 0], ["sshuffle", 1]]}
 
 
 # ------------------------------------------------------------------ implementation side
@@ -784,6 +797,51 @@ def _apply(case, side, op):
             return [-2]
         a.remove()          # FixedAgent.remove(): deregistered, taken off the cell's list, _mesa_cell left as it is
         return [0]
+    if kind == "draw":
+        _, _, k, arg = op
+        own = {id(c) for c in cells}
+        mine = {id(a) for c in cells for a in c._agents}
+        before = sp.random.getstate()
+        try:
+            if k == 0:
+                got, want = sp.all_cells.select_random_cell(), "cell"
+            elif k == 1:
+                got, want = sp.all_cells.select_random_agent(), "agent"
+            elif k == 2:
+                got, want = sp.empties.select_random_cell(), "empty"
+            elif k in (3, 4):
+                if isgrid:
+                    if k == 3 and not any(c.is_empty for c in cells):
+                        return [-2]                     # the rejection-sampling strategy would not terminate
+                    old = sp._try_random
+                    sp._try_random = (k == 3)
+                    try:
+                        got, want = sp.select_random_empty_cell(), "empty"
+                    finally:
+                        sp._try_random = old
+                else:
+                    got, want = sp.select_random_empty_cell(), "empty"
+            elif k in (5, 6):
+                if not 0 <= arg < len(cells):
+                    return [-2]
+                nb = cells[arg].neighborhood
+                got, want = (nb.select_random_cell(), "nbcell") if k == 5 else (nb.select_random_agent(), "nbagent")
+            else:
+                return [-2]
+        except IndexError:
+            if sp.random.getstate() != before:
+                raise RuntimeError("a selection from an empty population consumed random numbers") from None
+            return [-1, E_EMPTY]
+        # the outcome itself is random; it must be an element of THIS side
+        if want in ("cell", "empty", "nbcell") and id(got) not in own:
+            raise RuntimeError("random selection returned a cell of another space")
+        if want == "empty" and not got.is_empty:
+            raise RuntimeError("select_random_empty_cell returned an occupied cell")
+        if want in ("agent", "nbagent") and id(got) not in mine:
+            raise RuntimeError("random selection returned an agent that is not on this side's grid")
+        if want == "nbcell" and (got is cells[arg] or not any(t is got for t in cells[arg].connections.values())):
+            raise RuntimeError("neighborhood.select_random_cell returned a cell that is not a neighbour")
+        return [0, 1 if sp.random.getstate() != before else 0]
     if kind == "connect":
         _, _, ci, key, cj = op
         if not (0 <= ci < len(cells) and 0 <= cj < len(cells)) or key < HANDMADE:
@@ -989,6 +1047,7 @@ def _run_space(case):
     m0 = mesa.Model(seed=1)
     sides = [_Side(_build_space(case, m0), m0, {})]
     prev = [_abs(case, sides[0])]
+    prev_rng = [(sides[0].space.random.getstate(), sides[0].model.random.getstate())]
 
     def add(i, key, what):
         failures.append({"key": f"C19/{cls}/{key}", "op": i, "what": what})
@@ -1090,6 +1149,31 @@ def _run_space(case):
         for k, ab in enumerate(cur):
             o += _world_obs(k, ab)
         o.append(1 if len({id(sd.model) for sd in sides}) == len(sides) else 0)
+        # ---- the random generators: every side its own, a draw on one side leaves the others alone, a copy starts in the
+        #      state its source had (so both sides produce the same next draws, independently)
+        rng_bad = []
+        cur_rng = [(sd.space.random.getstate(), sd.model.random.getstate()) for sd in sides]
+        for k, sd in enumerate(sides):
+            for k2 in range(k + 1, len(sides)):
+                if {id(sd.space.random), id(sd.model.random)} & {id(sides[k2].space.random), id(sides[k2].model.random)}:
+                    rng_bad.append(("copy/random-generator-shared", f"sides {k} and {k2} share a random generator object"))
+            if any(c.random is not sd.space.random for c in sd.space._cells.values()) \
+                    or sd.space.all_cells.random is not sd.space.random:
+                rng_bad.append(("copy/random-generator-shared", f"a cell or the all_cells collection of side {k} does not use "
+                                                                 f"the side's own generator object"))
+            if k != touched and k < len(prev_rng) and cur_rng[k] != prev_rng[k]:
+                rng_bad.append(("copy/random-draw-advances-another-side",
+                                f"{op} on side {touched} advanced the random generator of side {k}"))
+        if kind == "copy" and res == [0] and cur_rng[-1][0] != prev_rng[op[2]][0]:
+            rng_bad.append(("copy/random-generator-state-not-carried",
+                            "the copy's generator is not in the state the source's generator had when it was copied"))
+        if kind == "draw" and res == [0, 0]:
+            rng_bad.append(("copy/random-draw-ignores-own-generator",
+                            f"{op}: a random selection on side {touched} left that side's own generator untouched"))
+        for key, what in rng_bad:
+            add(i, key, f"after {op}: {what}")
+        prev_rng = cur_rng
+        o.append(0 if rng_bad else 1)
         obs.append(o)
         # ---- the statement
         if shared:
@@ -1508,6 +1592,8 @@ def _run_aset(case):
         return [getattr(a, "vid", -1) for a in s["set"]]
 
     prev = [view(sides[0])]
+    prev_rng = [sides[0]["set"].random.getstate()]
+    ops_for_model = [list(o) for o in case["ops"]]
     for i, op in enumerate(case["ops"]):
         kind = op[0]
         res = [-2]
@@ -1540,6 +1626,34 @@ def _run_aset(case):
                         elif new.random.getstate() != s["set"].random.getstate():
                             add(i, "copy/unfaithful-generator", "the copy's generator is not in the state of the original's")
                         prev.append(view(ns))
+            elif kind in ("sdraw", "sshuffle"):
+                # shuffle_do / shuffle(inplace=False) draw without changing the order; shuffle(inplace=True) re-orders: the
+                # new order is an outcome recorded for the model, which checks that it is a permutation of the members
+                s_i = op[1]
+                if 0 <= s_i < len(sides):
+                    s = sides[s_i]
+                    touched = s_i
+                    before = s["set"].random.getstate()
+                    old_view = view(s)
+                    if kind == "sdraw" and op[2] == 0:
+                        s["set"].shuffle_do(lambda agent: None)
+                    elif kind == "sdraw":
+                        other = s["set"].shuffle(inplace=False)
+                        if sorted(getattr(x, "vid", -1) for x in other) != sorted(old_view):
+                            add(i, "copy/not-fresh-members", "shuffle(inplace=False) returned a set with other members")
+                        other = None
+                    else:
+                        s["set"].shuffle(inplace=True)
+                        new_view = view(s)
+                        ops_for_model[i] = ["sshuffle", s_i, new_view]
+                        if sorted(new_view) != sorted(old_view):
+                            add(i, "copy/not-fresh-members", f"shuffle(inplace=True) changed the members: {old_view} -> {new_view}")
+                        s["shadow"] = list(new_view)
+                    changed = 1 if s["set"].random.getstate() != before else 0
+                    res = [0, changed]
+                    if changed != (1 if len(old_view) >= 2 else 0):
+                        add(i, "copy/random-draw-ignores-own-generator",
+                            f"{op}: shuffling {len(old_view)} members {'did not use' if not changed else 'used'} the set's own generator")
             elif kind == "sforget":
                 # the program drops every strong reference to the members (and to their model); an AgentSet holds its
                 # members weakly, so after a collection it is empty - documented weak-reference behaviour
@@ -1614,6 +1728,21 @@ def _run_aset(case):
                     shared = 1
         o.append(0 if shared else 1)
         o.append(1)
+        rng_bad = []
+        cur_rng = [s["set"].random.getstate() for s in sides]
+        for k in range(len(sides)):
+            for k2 in range(k + 1, len(sides)):
+                if sides[k]["set"].random is sides[k2]["set"].random:
+                    rng_bad.append(("copy/random-generator-shared", f"agent sets {k} and {k2} share a random generator object"))
+            if k != touched and k < len(prev_rng) and cur_rng[k] != prev_rng[k]:
+                rng_bad.append(("copy/random-draw-advances-another-side",
+                                f"{op} on set {touched} advanced the random generator of set {k}"))
+        if kind == "scopy" and res == [0] and cur_rng[-1] != prev_rng[op[2]]:
+            rng_bad.append(("copy/random-generator-state-not-carried", "the copy's generator is not in the state of its source's"))
+        for key, what in rng_bad:
+            add(i, key, what)
+        prev_rng = cur_rng
+        o.append(0 if rng_bad else 1)
         obs.append(o)
         if shared:
             add(i, "copy/not-detached-shared-object", f"after {op} two agent sets share a member object")
@@ -1626,7 +1755,7 @@ def _run_aset(case):
                 add(i, "copy/not-fresh-members", f"len() of side {k} is {len(sides[k]['set'])} but iteration yields {len(v)} members")
         prev = cur
     gc.enable()
-    return {"obs": obs, "failures": failures}
+    return {"obs": obs, "failures": failures, "ops_for_model": ops_for_model}
 
 
 def run_impl(case):
@@ -1655,6 +1784,12 @@ def _coq_wop(op):
         return f"DelEmpty {z(op[1])}"
     if k == "connect":
         return f"Connect {z(op[1])} {z(op[2])} {z(op[3])} {z(op[4])}"
+    if k == "draw":
+        return f"Draw {z(op[1])} {z(op[2])} {z(op[3])}"
+    if k == "sdraw":
+        return f"SDraw {z(op[1])} {z(op[2])}"
+    if k == "sshuffle":
+        return f"SShuffle {z(op[1])} {L.zlist(op[2] if len(op) > 2 else [])}"
     return f"Inner ({_coq_op(op)})"
 
 
@@ -1698,7 +1833,7 @@ def _coq_dummy():
 def coq_case(case):
     if case["kind"] == "exotic":
         return _coq_dummy()
-    ops = L.lst([_coq_wop(o) for o in case["ops"]])
+    ops = L.lst([_coq_wop(o) for o in case.get("_ops_for_model") or case["ops"]])
     return f"{{| wc_case := {_coq_inner_case(case)}; wc_ops := {ops} |}}"
 
 
